@@ -274,6 +274,17 @@ let () =
                      incr nontrivial
                    end;
                    (* oracles on the implementation triple *)
+                   (* C03: dispatch is memoryless - a fresh parser fed the same characters from ground state
+                      must emit the same function as the implementation did from its history-laden state *)
+                   (if v.vparser.pst = Ground then begin
+                      obump "C03.memoryless";
+                      match run_chars { v with vparser = init_parser } cs with
+                      | Model.Ok (_, f_fresh), _ ->
+                          let s_fresh = match f_fresh with Some f -> str_of_func f | None -> "-" in
+                          if s_fresh <> fn_impl then
+                            Printf.printf "ORA prop=C03 case=%d step=%d fn=%s what=dispatch_depends_on_history fresh=[%s] impl=[%s]\n" !case_id !step kind s_fresh fn_impl
+                      | _ -> ()
+                    end);
                    (match f with
                    | Some _ when Model.claims_inert v cs ->
                        if Model.known_C20 cs then Printf.printf "KF prop=C20 id=KF-C20-1 case=%d step=%d\n" !case_id !step
